@@ -332,7 +332,13 @@ class World(object):
         if step is not None:
             sk = st.fork()
             sk.note("%s: step function calls scenario.skip() and returns" % it.loc(node))
-            sk.wobj(Ref(step)).fields["status"] = S("skipped")
+            # Scenario.skip() marks the steps that are not executed yet (status untested / skipped) - the running step
+            # among them, as long as Step.run has left it in one of these states
+            now = sk.obj(Ref(step)).fields.get("status")
+            if isinstance(now, EnumVal) and now.name not in ("untested", "skipped"):
+                sk.note("%s: scenario.skip() does not touch the running step: its status is %s while the step function runs" % (it.loc(node), now.name))
+            else:
+                sk.wobj(Ref(step)).fields["status"] = S("skipped")
             if cur is not None:
                 sk.wobj(Ref(cur)).fields["should_skip"] = True
             it.emit(sk, ("stepfunc", "skip-scenario"))
